@@ -3,6 +3,7 @@
 from __future__ import annotations
 
 import ast
+import re
 import importlib
 import inspect
 
@@ -272,8 +273,11 @@ def r4(ctx):
         ne = src = None
         extra = []
         for k, v in p.atoms.items():
-            if "len(self.arguments)" in k and (" Gt 0" in k or "0 Lt" in k):
+            kk = k.strip("()")
+            if kk in ("len(self.arguments) Gt 0", "0 Lt len(self.arguments)", "len(self.arguments) Ne 0", "0 Ne len(self.arguments)", "len(self.arguments) GtE 1", "1 LtE len(self.arguments)"):
                 ne = v
+            elif kk in ("len(self.arguments) Eq 0", "0 Eq len(self.arguments)", "len(self.arguments) Lt 1", "1 Gt len(self.arguments)"):
+                ne = not v
             elif k == "self.arguments":
                 ne = v
             elif k == "codebasin.source.is_source_file(self.filename)":
@@ -284,6 +288,9 @@ def r4(ctx):
         # `return <test>`: the test is returned undecided - its value is the result
         if not isinstance(res, bool) and res is not None and not extra:
             rt = vtext(res)
+            m = re.fullmatch(r"bool\((.*)\)", rt)
+            if m:
+                rt = m.group(1)
             if rt == "codebasin.source.is_source_file(self.filename)" and src is None and ne is True:
                 ctx.ok(key + ":returns-source-test")
                 continue
